@@ -2,8 +2,10 @@
    Proved here: cancelling a per-call context changes nothing of the link but the cancelled set and
    the threads that were waiting on that context (frame property), the cancelled call's waiter
    wakes with that context's error, and a late response for an id without a live entry is discarded
-   without effect.  The ≤ 6 own-steps progress bound of DESIGN.md is not proved (level note). *)
-From Verif Require Import Base Link LinkProofs.
+   without effect; and over ALL reachable states: a blocked call whose context is cancelled returns after
+   at most four steps of its own waiter and itself, with a zero value and a non-nil error when no
+   response had reached its waiter. *)
+From Verif Require Import Base Link LinkProofs LinkInv16 LinkInvB.
 
 Theorem cancel_frame :
   forall calls s c,
@@ -52,3 +54,14 @@ Theorem late_response_discarded :
     step_pub s n (PEnter id x e) 0 = Some (with_ev (setT s (TPub n) Finished) (EvDiscard id)).
 Proof. intros s n id x e H. unfold step_pub. simpl. destruct (bclosed s); [reflexivity|]. rewrite H. reflexivity. Qed.
 Print Assumptions late_response_discarded.
+
+Theorem cancelled_call_returns :
+  forall calls s i,
+    lreachable fixed calls s -> memN (c_ctx (nth i calls dflt_call)) (cancelled s) = true ->
+    tget (threads s) (TCall i) = Some CBlocked ->
+    exists cs s' v e, length cs <= 4 /\ own_steps i cs /\ lrun fixed calls s cs = Some s' /\
+                      tget (threads s') (TCall i) = Some (CReturned v e) /\
+                      ((exists ent, tget (threads s) (TWaiter i) = Some (WStart ent)) ->
+                       v = zero /\ exists e0, e = Some e0).
+Proof. exact cancelled_call_returns_lemma. Qed.
+Print Assumptions cancelled_call_returns.
